@@ -55,6 +55,9 @@ func ogSetupWorld(t *testing.T) {
 		t.Fatalf("key setup: %v", err)
 	}
 	asGlobalConfig = asConfig{Issuer: "https://ego.verif", TokenExpiration: time.Hour}
+	// the server configures these lifetimes at start-up (authserver.go); expiry is not part of the scenario
+	_ = caches.SetExpiration(caches.OAuthCodeCache, "1h")
+	_ = caches.SetExpiration(caches.OAuthRefreshCache, "1h")
 	hash := func(s string) string {
 		b, err := bcrypt.GenerateFromPassword([]byte(s), bcrypt.MinCost)
 		if err != nil {
@@ -82,19 +85,20 @@ type ogEvent struct {
 }
 
 type ogWorld struct {
-	mu       sync.Mutex
-	concrete map[string]string // abstract grant -> concrete string
-	abstract map[string]string // concrete string -> abstract grant
-	events   []ogEvent
-	rawAdds  []int // indexes in events of Add events whose key is still concrete
-	quiet    bool  // sink suppressed (harness probes)
-	current  string
-	parked   map[string]chan struct{}
-	parkedAt map[string][2]string
-	notify   chan string
-	done     map[string]chan ogReply
-	rng      *rand.Rand
-	yield    bool // T mode: the gate only perturbs the schedule
+	mu         sync.Mutex
+	concrete   map[string]string // abstract grant -> concrete string
+	abstract   map[string]string // concrete string -> abstract grant
+	events     []ogEvent
+	rawAdds    []int // indexes in events of Add events whose key is still concrete
+	quiet      bool  // sink suppressed (harness probes)
+	current    string
+	parked     map[string]chan struct{}
+	parkedAt   map[string][2]string
+	notify     chan string
+	done       map[string]chan ogReply
+	rng        *rand.Rand
+	yield      bool // T mode: the gate only perturbs the schedule
+	interfered string
 }
 
 type ogReply struct {
@@ -117,6 +121,14 @@ func ogInstallHooks() {
 		}
 		w.mu.Lock()
 		defer w.mu.Unlock()
+		if op != "Find" && op != "Delete" && op != "Add" {
+			// the background sweeper (and purges) are not steps of a token request; with the 1h lifetime the
+			// harness configures they never remove anything -- if one does, the run is void
+			if n, _ := value.(int); op != "Sweep" || n > 0 {
+				w.interfered = fmt.Sprintf("%s on cache %d removed entries (%v)", op, id, value)
+			}
+			return
+		}
 		if w.quiet {
 			return
 		}
@@ -593,6 +605,9 @@ func TestVerifOAuthGrantReplay(t *testing.T) {
 			_, _ = w.release(r)
 		}
 		w.cleanup()
+		if w.interfered != "" && res.Fatal == "" {
+			res.Fatal = fmt.Sprintf("behaviour %d: %s", bi, w.interfered)
+		}
 		if res.Fatal != "" {
 			break
 		}
